@@ -619,6 +619,13 @@ func NewRaft(conf *Config, fsm FSM, logs LogStore, stable StableStore, snaps Sna
 			return nil, err
 		}
 	}
+	// Entries replayed by restoreFromCommittedLogs are committed, and so is a
+	// configuration among them. Without this the committed configuration
+	// stays empty until a leader reports its commit index, and a snapshot
+	// taken in the meantime would persist that empty configuration.
+	if r.RestoreCommittedLogs && r.configurations.latestIndex <= r.getCommitIndex() {
+		r.setCommittedConfiguration(r.configurations.latest, r.configurations.latestIndex)
+	}
 	r.logger.Info("initial configuration",
 		"index", r.configurations.latestIndex,
 		"servers", hclog.Fmt("%+v", r.configurations.latest.Servers))
